@@ -20,11 +20,25 @@ import (
 	"github.com/99designs/gqlgen/graphql/handler/extension"
 	"github.com/99designs/gqlgen/graphql/handler/lru"
 	"github.com/99designs/gqlgen/graphql/handler/transport"
+	"github.com/vektah/gqlparser/v2/formatter"
+	"github.com/vektah/gqlparser/v2/parser"
 
 	"verifharness/gen"
 )
 
 var texts = []string{"{ a }", "{ b }", "query Q { a b }"}
+
+// two texts that differ only in white space that IS significant (inside a string value)
+var twinTexts = []string{`{ echo(s: "a b") }`, `{ echo(s: "a  b") }`}
+
+func allTexts() []string { return append(append([]string{}, texts...), twinTexts...) }
+
+// docText renders a parsed document canonically (insignificant white space normalised, string values kept)
+func docText(d *ast.QueryDocument) string {
+	var sb strings.Builder
+	formatter.NewFormatter(&sb).FormatQueryDocument(d)
+	return sb.String()
+}
 
 func sha(q string) string { b := sha256.Sum256([]byte(q)); return hex.EncodeToString(b[:]) }
 
@@ -105,10 +119,10 @@ type probeKV struct {
 }
 
 type apqCase struct {
-	Cap   int        `json:"cap"` // 0 = map cache
-	Reqs  []req      `json:"reqs"`
-	Obs   []obs      `json:"observed"`
-	Probe []probeKV  `json:"probe"`
+	Cap   int       `json:"cap"` // 0 = map cache
+	Reqs  []req     `json:"reqs"`
+	Obs   []obs     `json:"observed"`
+	Probe []probeKV `json:"probe"`
 }
 
 func classify(msg string) string {
@@ -125,7 +139,7 @@ func classify(msg string) string {
 	return "other"
 }
 
-var schema = gqlparser.MustLoadSchema(&ast.Source{Name: "c15.graphql", Input: `type Query { a: Int b: Int }`})
+var schema = gqlparser.MustLoadSchema(&ast.Source{Name: "c15.graphql", Input: `type Query { a: Int b: Int echo(s: String): Int }`})
 
 func runHistory(capacity int, reqs []req, probeKeys []string) ([]obs, []probeKV) {
 	var cache graphql.Cache[string]
@@ -139,13 +153,24 @@ func runHistory(capacity int, reqs []req, probeKeys []string) ([]obs, []probeKV)
 		SchemaFunc:     func() *ast.Schema { return schema },
 		ComplexityFunc: func(ctx context.Context, t, f string, c int, a map[string]any) (int, bool) { return 0, false },
 		ExecFunc: func(ctx context.Context) graphql.ResponseHandler {
-			q := graphql.GetOperationContext(ctx).RawQuery
+			oc := graphql.GetOperationContext(ctx)
+			q := oc.RawQuery
+			// what is executed is the document, not the raw text: name the text the executed document belongs to
+			if raw, err := parser.ParseQuery(&ast.Source{Input: oc.RawQuery}); err == nil && oc.Doc != nil && docText(raw) != docText(oc.Doc) {
+				q = "DOCUMENT OF ANOTHER TEXT: " + docText(oc.Doc)
+				for _, t := range allTexts() {
+					if d, err := parser.ParseQuery(&ast.Source{Input: t}); err == nil && docText(d) == docText(oc.Doc) {
+						q = t
+					}
+				}
+			}
 			executed = &q
 			return graphql.OneShot(&graphql.Response{Data: []byte(`{}`)})
 		},
 	}
 	srv := handler.New(es)
 	srv.AddTransport(transport.POST{})
+	srv.SetQueryCache(lru.New[*ast.QueryDocument](64)) // as handler.NewDefaultServer does
 	srv.Use(extension.AutomaticPersistedQuery{Cache: cache})
 	var out []obs
 	for _, r := range reqs {
@@ -211,7 +236,7 @@ func Run(c *gen.Ctx) error {
 		Type: "apq_case", Checks: []gen.Check{{"corr", "apq_corr"}, {"mon", "apq_monitor"}, {"monmodel", "apq_monitor_on_model"}}, Shard: 400}
 	var hashTbl []string
 	probeKeys := []string{"deadbeef"}
-	for _, t := range texts {
+	for _, t := range allTexts() {
 		hashTbl = append(hashTbl, fmt.Sprintf("(%s, %s)", gen.Str(t), gen.Str(sha(t))))
 		probeKeys = append(probeKeys, sha(t))
 	}
@@ -292,6 +317,25 @@ func Run(c *gen.Ctx) error {
 		rec(1, nil, 4)
 		rec(2, nil, 4)
 	}
+	// texts differing only in significant white space, with the parsed-document cache in play: every history up to
+	// length 3 over {text only, text + own hash, hash only} x the two texts
+	var twin []req
+	for _, t := range twinTexts {
+		twin = append(twin, req{Text: t, Ext: "none"}, req{Text: t, Ext: "ok", Sha: sha(t), Version: 1}, req{Ext: "ok", Sha: sha(t), Version: 1})
+	}
+	var rec2 func(pre []req, n int)
+	rec2 = func(pre []req, n int) {
+		if len(pre) > 0 {
+			add(0, append([]req(nil), pre...))
+		}
+		if n == 0 {
+			return
+		}
+		for _, x := range twin {
+			rec2(append(pre, x), n-1)
+		}
+	}
+	rec2(nil, 3)
 	exhaustive := cf.Len()
 	// random long histories with eviction
 	nrand := 300
@@ -313,7 +357,7 @@ func Run(c *gen.Ctx) error {
 	}
 	meta.Evaluations = cf.Len()
 	meta.DistinctNontrivial = len(distinct)
-	meta.Rule = "request histories against handler.Server+POST+AutomaticPersistedQuery: exhaustive up to length 2 over a 19-form alphabet (3 texts x {text only, text+own hash, text+another text's hash, text+garbage hash, hash only, garbage hash only, malformed extension, wrong version, no query}) with MapCache and LRU(1); exhaustive length 3 over a 9-form core alphabet; random histories of length 4..12 with MapCache/LRU(1..3). Non-trivial = a history in which some hash-only request resolved to a text; distinct by (cache, request list)."
+	meta.Rule = "request histories against handler.Server+POST+AutomaticPersistedQuery: exhaustive up to length 2 over a 19-form alphabet (3 texts x {text only, text+own hash, text+another text's hash, text+garbage hash, hash only, garbage hash only, malformed extension, wrong version, no query}) with MapCache and LRU(1); exhaustive length 3 over a 9-form core alphabet; random histories of length 4..12 with MapCache/LRU(1..3); every history up to length 3 over two texts that differ only in white space inside a string value x {text only, text + own hash, hash only}. The server has a parsed-document cache (as NewDefaultServer installs); what is observed as executed is the executed DOCUMENT, mapped back to the text it is the parse of. Non-trivial = a history in which some hash-only request resolved to a text; distinct by (cache, request list)."
 	meta.Samples = []any{descr[exhaustive-1], descr[len(descr)-1]}
 	meta.Distribution = map[string]any{"exhaustive_cases": exhaustive, "random_cases": nrand, "request_forms": kinds, "observed_outcomes": outcomes, "history_lengths": lens}
 	return meta.Write(c.OutDir)
